@@ -22,7 +22,7 @@ RULE = ("seeded label vectors (n<=40, 1-5 known classes, 0-50% unknown labels at
         "positive_negative_pairs (n_constraints up to several times the number of distinct pairs, "
         "same_length), chunks (feasible and infeasible), generate_knntriplets (continuous and "
         "integer-grid points with duplicates, k 1..6); randomness through a recording RandomState, "
-        "an integer seed or a scripted draw program (constant / short cycle / three-value support); each call repeated immediately / after ambient perturbation / "
+        "an integer seed or a scripted draw program (constant / short cycle / three-value support); the calls of a run share one live Constraints object in half of the runs; each call repeated immediately (same object) / after ambient perturbation (new object) / "
         "(rationed) in a fresh interpreter with another hash seed; non-trivial = >=1 call inside the "
         "property's domain checked; distinct = distinct (kind, parameters, label-layout) signatures")
 REAL_VS_STUB = dict(real=["metric_learn.constraints", "sklearn NearestNeighbors", "numpy RandomState (MT19937)"],
@@ -93,6 +93,7 @@ def gen_plan(seed, tier):
                         points=dict(seed=r.randrange(10**6), d=r.randint(1, 4),
                                     kind=r.choice(["cont", "grid"]))))
   return dict(run_seed=seed, labels=labels, calls=calls,
+              shared_object=substream(seed, "c07-shared").random() < 0.5,
               fresh=r.random() < (0.002 if tier == "quick" else 0.001))
 
 
@@ -104,10 +105,13 @@ def _rs(spec):
   return world.SimRandomState(int(spec["seed"]))
 
 
-def do_call(y, call):
-  """Invoke the real helper; returns (outcome, value, warnings, draw info)."""
+def do_call(y, call, C=None):
+  """Invoke the real helper; returns (outcome, value, warnings, draw info).
+  C: a live Constraints object shared by all the calls of a plan (one object,
+  many calls - its answers must not depend on what it was asked before)."""
   from metric_learn.constraints import Constraints
-  C = Constraints(y.copy())
+  if C is None:
+    C = Constraints(y.copy())
   info = {}
   with world.observed() as wl:
     try:
@@ -337,10 +341,18 @@ def out_digest(outcome, out):
 def fresh_eval(plan):
   y = make_labels(plan["labels"])
   res = []
+  C = _shared(plan, y)
   for call in plan["calls"]:
-    o, v, _, _ = do_call(y, call)
+    o, v, _, _ = do_call(y, call, C)
     res.append(out_digest(o, v))
   return res
+
+
+def _shared(plan, y):
+  if not plan.get("shared_object"):
+    return None
+  from metric_learn.constraints import Constraints
+  return Constraints(y.copy())
 
 
 def run_plan(plan):
@@ -352,9 +364,11 @@ def run_plan(plan):
   checked = 0
   shape = []
   try:
+    C = _shared(plan, y)
+    cov["shared_constraints_object"] += int(C is not None)
     for i, call in enumerate(plan["calls"]):
       world.perturb_ambient(h64("c07", plan["run_seed"], i) % (2**31), 1)
-      outcome, out, wl, info = do_call(y, call)
+      outcome, out, wl, info = do_call(y, call, C)
       ev = dict(i=i, kind=call["kind"], outcome=outcome, out=out_digest(outcome, out),
                 warn=world.warn_cats(wl))
       if "rounds" in info:
@@ -383,9 +397,9 @@ def run_plan(plan):
       if call["kind"] != "knn":
         cov["draw_program_" + (call["rs"].get("script") or call["rs"]["kind"])] += 1
       if call["kind"] == "knn" or call["rs"]["kind"] in ("int", "sim", "scripted"):
-        o2, v2, _, _ = do_call(y, call)
+        o2, v2, _, _ = do_call(y, call, C)
         world.perturb_ambient(h64("c07b", plan["run_seed"], i) % (2**31), 4)
-        o3, v3, _, _ = do_call(y, call)
+        o3, v3, _, _ = do_call(y, call)        # on a brand-new object
         d1 = out_digest(outcome, out)
         if out_digest(o2, v2) != d1 or out_digest(o3, v3) != d1:
           raise Violation("reproducible", "kind=%s,rs=%s" % (call["kind"], call.get("rs", {}).get("kind", "-")),
@@ -422,6 +436,10 @@ def shrink_moves(plan, violation):
       p = copy.deepcopy(plan)
       del p["calls"][i]
       yield p
+  if plan.get("shared_object"):
+    p = copy.deepcopy(plan)
+    p["shared_object"] = False
+    yield p
   lab = plan["labels"]
   for key, lo in (("n", 3), ("classes", 1)):
     v = lab[key]
